@@ -42,6 +42,14 @@ Theorem C01_gen_propagates_history : forall srt ops w,
 Proof. exact history_no_foreign. Qed.
 Print Assumptions C01_gen_propagates_history.
 
+(* reset_randomizer re-seeds the generator object in place: it changes no collection, so everything derived before a
+   reset is still the same collection with the same generator after any number of resets (and, being an op of the
+   history, C01_gen_propagates_history covers derivations made between and after resets) *)
+Theorem C01_reset_keeps_collections : forall srt n w d,
+  eval (final srt w (repeat Reset n)) d = eval w d /\ final srt w (repeat Reset n) = w.
+Proof. exact resets_preserve_derivations. Qed.
+Print Assumptions C01_reset_keeps_collections.
+
 (* the observable is sharp: the unseeded fall-back IS seen *)
 Theorem C01_unseeded_is_visible : forall w d c, eval w (TNew d false) = Ok c -> gen c = OTHER_GEN.
 Proof. exact unseeded_is_visible. Qed.
@@ -160,11 +168,11 @@ Example C01_example_gen :
 Proof. vm_compute. repeat split; congruence. Qed.
 
 Example C01_example_history :
-  let ops := [Create 1 [7; 8]; Derive (TShuffle (TByType 1) [2; 0; 1]); Remove 4; Derive TLegacyAgents;
+  let ops := [Create 1 [7; 8]; Derive (TShuffle (TByType 1) [2; 0; 1]); Reset; Remove 4; Derive TLegacyAgents;
               MoveToEmpty 1 [(1, 1); (0, 0); (1, 0)] 2 []; Derive TLegacyAgents; DeriveC CEmpties] in
   run_wf true ex_world ops /\ reg_ok ex_world /\
   run_ops true ex_world ops =
-    [[0; 5; 6]; [0; 6; 2; 5]; [0; 1; 2; 5; 6]; [0; 2]; [0; 1; 1; 0; 1; 2; 1; 1; 1]; [0; 2; 1]; [0; 1; 3]].
+    [[0; 5; 6]; [0; 6; 2; 5]; [0; 0]; [0; 1; 2; 5; 6]; [0; 2]; [0; 1; 1; 0; 1; 2; 1; 1; 1]; [0; 2; 1]; [0; 1; 3]].
 Proof. vm_compute. repeat split; try congruence; try lia. Qed.
 
 Example C01_example_perm :
